@@ -58,7 +58,10 @@ def add(doc, toks, value, mode="add"):
             if last == "-":
                 return [deep_copy(v) for v in parent] + [value]
             i = rptr.canonical_index(last)
-            if i is None or i > len(parent):
+            if i is None:
+                # not an array index at all ('01', 'x', '#0'): nothing for addap to "fail to resolve" - as for add
+                raise PatchError("not an array index %r" % last)
+            if i > len(parent):
                 if mode == "addap":
                     return [deep_copy(v) for v in parent] + [value]
                 raise PatchError("bad array index %r" % last)
